@@ -127,6 +127,8 @@ var c13PkgTexts = []string{
 	`{"name":"x"}`,
 	`{"scripts":{"git":"echo"}}`,
 	`{"scripts":[]}`,
+	// more scripts than any small cut-off: which ones get a boost must not depend on map order
+	`{"scripts":{"s01":"a","s02":"a","s03":"a","s04":"a","s05":"a","s06":"a","s07":"a","s08":"a","s09":"a","s10":"a","s11":"a","s12":"a","s13":"a"}}`,
 }
 
 var c13MkTexts = []string{
@@ -138,6 +140,7 @@ var c13MkTexts = []string{
 	"a: b: c\n",
 	"build:\r\n\tgo build\r\ntest:\r\n",
 	"git: files\n",
+	"t01:\nt02:\nt03:\nt04:\nt05:\nt06:\nt07:\nt08:\nt09:\nt10:\nt11:\nt12:\nt13:\n",
 }
 
 func c13Analyze(dir string, cs c13Case) (*lib.Violation, string) {
@@ -440,7 +443,7 @@ func popcount(x int) int {
 func init() {
 	lib.Register(&lib.Check{
 		ID: "C13", Level: "model_checking",
-		Rule:      "(search) databases = 40-entry, 12-identical + all subsets of <=2 (quick) / <=3 (thorough) of 13 pool entries; queries = 22 one-word + 56 two-word + three 11-12-word queries (each also with TopTermsCap 5 and 6, so that the term trimming is in play) + empty; boost maps = 15 words x factors {1,1.3,2,3}, all 105 two-word maps with factors {2,3}, a zero, a negative and an empty map; NLP off/on; each as a pair (without, with boosts) at Limit>=N: same candidate set, boosted-word entries never lower, other entries bit-identical. (analyzer) every listing of <=2 names from 51 marker / non-marker names + every listing of 3 names two of which are markers of the same project type (thorough: + all subsets of >=3 of 18 representative markers) x 8 package.json x 8 Makefile texts on a real tmpfs directory: determinism, no duplicate type, generic exactly when nothing recognised, no recognised type missed, finite boosts >=1, GetContextBoosts invariant under forced map orders. non-trivial = pairs whose scores differ / non-generic directories",
+		Rule:      "(search) databases = 40-entry, 12-identical + all subsets of <=2 (quick) / <=3 (thorough) of 13 pool entries; queries = 22 one-word + 56 two-word + three 11-12-word queries (each also with TopTermsCap 5 and 6, so that the term trimming is in play) + empty; boost maps = 15 words x factors {1,1.3,2,3}, all 105 two-word maps with factors {2,3}, a zero, a negative and an empty map; NLP off/on; each as a pair (without, with boosts) at Limit>=N: same candidate set, boosted-word entries never lower, other entries bit-identical. (analyzer) every listing of <=2 names from 51 marker / non-marker names + every listing of 3 names two of which are markers of the same project type (thorough: + all subsets of >=3 of 18 representative markers) x 9 package.json x 9 Makefile texts (one of each with 13 scripts / targets) on a real tmpfs directory: determinism, no duplicate type, generic exactly when nothing recognised, no recognised type missed, finite boosts >=1, GetContextBoosts invariant under forced map orders. non-trivial = pairs whose scores differ / non-generic directories",
 		Assume:    []string{"map order pinned in searches; explored (deviation bound 1, reverse and rotate) in GetContextBoosts", "marker table copied from the analyzer's documented file names"},
 		QuickSecs: 240, ThorSecs: 1800,
 		Run: c13Run,
